@@ -25,7 +25,9 @@ ORACLES = {
     "C03": ["oracle_c03"],
     "C04": ["oracle_c03_c04"],
     "C14": ["oracle_c14", "oracle_c03_c04", "oracle_c01", "oracle_c02_field"],
-    "C08": ["oracle_c08", "c08_"],
+    # oracle_c02_hmc_step_is_L...: predicts each row's own acceptance draw from a copy of the sampler's generator, so
+    # rows sharing one acceptance draw (C08: distinct acceptance draws per chain) fail it
+    "C08": ["oracle_c08", "c08_", "oracle_c02_hmc_step_is_L"],
     "C09": ["oracle_c09", "oracle_c07_c09", "oracle_c03_c04_blackbox"],
     "C10": ["oracle_c10", "c10_"],
     "C11": ["oracle_c11", "c11_"],
@@ -149,13 +151,23 @@ def run(c, prop, tier, seed):
     env = dict(os.environ, CARGO_NET_OFFLINE="true")
     res = {"name": c["name"], "backend": "kani 0.68 / cbmc (bit-precise, BOUNDED)", "bound": c.get("bound", ""), "harnesses": [], "violations": [],
            "functions": [f"{it['file']}::{it.get('impl_self', '')}::{it['name']}" for it in c["items"]], "labelled": "bounded: never counted as proved"}
-    for h in c["harnesses"]:
+    # build once (serial), then the harnesses run side by side (each is one CBMC process; the largest needs about 6 GB)
+    subprocess.run(["cargo", "kani", "--only-codegen"], cwd=bdir, capture_output=True, text=True, env=env, timeout=c.get("timeout", 1800))
+
+    def one(h):
         cmd = ["cargo", "kani", "--harness", h]
         try:
             k = subprocess.run(cmd, cwd=bdir, capture_output=True, text=True, env=env, timeout=c.get("timeout", 1800))
         except subprocess.TimeoutExpired:
+            return h, cmd, None
+        return h, cmd, k.stdout + "\n" + k.stderr
+
+    import concurrent.futures
+    with concurrent.futures.ThreadPoolExecutor(max_workers=c.get("jobs", 4)) as ex:
+        outs = list(ex.map(one, c["harnesses"]))
+    for h, cmd, out in outs:
+        if out is None:
             raise vx.Undecided(f"kani companion {h}: timeout")
-        out = k.stdout + "\n" + k.stderr
         if "VERIFICATION:- SUCCESSFUL" in out:
             m = re.search(r"\*\* (\d+) of (\d+) failed", out)
             res["harnesses"].append({"harness": h, "result": "successful", "checks": int(m.group(2)) if m else None, "cmd": "cd %s && %s" % (bdir, " ".join(cmd))})
